@@ -195,6 +195,20 @@ CHECKS['C18'] = dict(
          'the tweak point gives a valid signature) and the identity proved here (the released scalar\'s point is the tweak point). Unknown solver '
          'answers fall back to candidate replay on real libsodium, never to a pass.',
     technique=TECH)
+CHECKS['C05'] = dict(
+    text='(a) the 32 bytes pushed by make_taproot_lock (symbolic valid internal key P, symbolic script S) are, in the generic-group model, the '
+         'point with discrete log dlog(P) + clamp(sha256(P || sha256(S))) computed independently at integer level; the lock from the commitment '
+         'is byte-identical. (b) OP_TAPROOT, reached through that lock, from an arbitrary witness state (stacks of 0..3 symbolic items of lengths '
+         '1,2,3,32,63,64,65): on the script path exactly the supplied script is handed to the evaluator and only if (script, key) recomputes to '
+         'the root, the committed pair is never rejected, a rejected pair yields false without evaluation; on the key path the verdict is the '
+         'oracle verdict under the root with the flag rules. (c) builder key-spend (sign_with_scalar on x + t, verified by the RFC 8032 equation '
+         'in the model) and script-spend witnesses unlock their lock. (d) native and non-native lock give the same verdict and evaluate the same '
+         'scripts on every witness state.',
+    design_ref='DESIGN.md section 4 C05',
+    note='Trusted: SX engine incl. placeholder strings, z3, generic-group idealisation with canonical merging of congruent values mod L, SHA-256 '
+         'uninterpreted, signature oracle on the key path, the summary of the evaluated script. Unknown solver answers fall back to candidate '
+         'replay on real libsodium, never to a pass. The graftap builders ride on the same identities (taproot lock + graftroot script of C13).',
+    technique=TECH)
 NOT_APPLICABLE = {}
 NOTES = ('Exit codes of every check: 0 held on everything explored; 1 + VIOLATION line for a counterexample that was '
          'replayed on the real package and is not a listed known finding; 2 harness error / unsupported construct / '
